@@ -15,7 +15,8 @@ SHAPES = [
     "single", "pair", "chain", "star", "caterpillar", "recursive", "binary", "neuron",
     "stem", "broom", "highdeg", "bamboo",
 ]
-GEOMS = ["growth", "gauss", "far", "int", "quarter", "tiny", "big", "coincident", "axis"]
+GEOMS = ["growth", "gauss", "far", "int", "quarter", "tiny", "big", "coincident", "axis",
+         "plane"]
 # "pythag" (not in the default pool): every node sits at an integer multiple of an integer vector
 # of integer norm from the root, so every radial distance is an exact small integer in float32
 PYTHAG = [(1, 0, 0, 1), (3, 4, 0, 5), (1, 2, 2, 3), (2, 3, 6, 7), (1, 4, 8, 9), (4, 4, 7, 9),
@@ -157,6 +158,11 @@ def positions(rng, pid_sorted: np.ndarray, geom: str) -> np.ndarray:
         for i in range(1, n):
             xyz[i] = xyz[pid_sorted[i]] + steps[i]
         return xyz
+    if geom == "plane":
+        # a flat neuron in the plane y == z (both columns hold the same values)
+        xyz = rng.normal(0, 10, (n, 3)) + rng.uniform(-30, 30, 3)
+        xyz[:, 2] = xyz[:, 1]
+        return xyz
     if geom == "axis":
         # axis-aligned integer steps: every segment length is an exact small integer in float32
         xyz[0] = rng.integers(-5, 6, 3)
@@ -235,6 +241,9 @@ def spec_from_recipe(rc: dict) -> dict:
             spec[f"e{k}"] = (tag * 7 + 3 + k).astype(np.int32)
         else:
             spec[f"e{k}"] = (tag * 0.25 + 0.5 + k).astype(np.float32)
+    if int(rc.get("extras", 0)) >= 2 and int(rc["seed"]) % 3 == 0:
+        # a per-node column kept twice under two names (e.g. a raw and a working copy)
+        spec["e1"] = spec["e0"].copy()
     return spec
 
 
@@ -277,7 +286,9 @@ def _spec_hash(spec: dict) -> int:
     return int.from_bytes(h.digest()[:8], "little")
 
 
-WARM_STATS = {"strided_layout": 0, "queried_before_use": 0}
+WARM_STATS = {"strided_layout": 0, "queried_before_use": 0, "other_input_dtypes": 0,
+              "readonly_columns": 0, "one_array_as_two_columns": 0,
+              "aborted_operations_before_use": 0}
 
 
 def warm(tree, h: int = 0xFFFF) -> None:
@@ -313,13 +324,78 @@ def warm(tree, h: int = 0xFFFF) -> None:
     WARM_STATS["queried_before_use"] += 1
 
 
+class _Abort(Exception):
+    pass
+
+
+def abuse(tree, h: int = 0xFFFF) -> None:
+    """Operations on the tree that *fail or are abandoned* before the tree is handed on: a
+    traversal stopped by an exception from the caller's callback (an early-exit search), a
+    traversal started below the root, a rejected option, an out-of-range index, an iterator left
+    half-way.  A correct library is left exactly as it was; the exceptions are the caller's own."""
+    n = len(tree)
+    if n > 20000:
+        return
+
+    def stop_after(k):
+        box = [0]
+
+        def cb(*a):
+            box[0] += 1
+            if box[0] > k:
+                raise _Abort()
+            return box[0]
+        return cb
+
+    k1, k2 = 1 + (h >> 3) % max(1, n), (h >> 7) % max(1, n)
+    ops = [
+        lambda: tree.node(k2).traverse(enter=stop_after(1 + (h >> 11) % 3)),  # below the root
+        lambda: tree.traverse(enter=stop_after(k1 // 2)),
+        lambda: tree.traverse(leave=stop_after(k1 // 2)),
+        lambda: tree.traverse(enter=stop_after(k1), leave=stop_after(k1 // 3)),
+        lambda: tree.traverse(enter=lambda nd, p: 0, mode="bfs"),
+        lambda: tree.traverse(enter=lambda nd, p: 0, root=n + 3),
+        lambda: tree[n], lambda: tree.node(k2).traverse(leave=lambda nd, ch: 0),
+        lambda: next(iter(tree)), lambda: tree.get_ndata("no such column"),
+        lambda: tree.node(k2).subtree().traverse(enter=stop_after(0)),
+    ]
+    order = sorted(range(len(ops)), key=lambda i: (h >> (i + 2)) * 2654435761 % 1000003)
+    for i in order[: 2 + (h % 4)]:
+        try:
+            ops[i]()
+        except Exception:
+            pass
+    WARM_STATS["aborted_operations_before_use"] += 1
+
+
+def _narrow_int(a: np.ndarray, salt: int):
+    """The same integers in another container / dtype a caller may hold them in."""
+    lo, hi = int(a.min(initial=0)), int(a.max(initial=0))
+    kinds = [np.int64, list]
+    if -128 <= lo and hi <= 127:
+        kinds += [np.int8]
+    if 0 <= lo and hi <= 255:
+        kinds += [np.uint8]
+    if -32768 <= lo and hi <= 32767:
+        kinds += [np.int16]
+    if 0 <= lo and hi <= 65535:
+        kinds += [np.uint16]
+    k = kinds[salt % len(kinds)]
+    return [int(v) for v in a] if k is list else a.astype(k)
+
+
 def build(spec: dict, *, with_tag: bool = True, source: str = "", comments=None,
-          plain: bool = False):
+          plain: bool = False, frozen_ok: bool = False):
     """Build a swcgeom Tree from a spec (own copies of every array).
 
-    Deterministically from the spec's content, one tree in four keeps its x/y/z/r columns as
-    strided views into one (n, 4) block (what a caller gets from ``Tree(n, x=xyz[:, 0], ...)``),
-    and every other tree is queried read-only before it is handed on (``warm``)."""
+    Deterministically from the spec's content the columns are handed to the constructor in one of
+    several *representations* of the same values: contiguous arrays of the library's own dtypes;
+    strided views into one (n, 4) block (``Tree(n, x=xyz[:, 0], ...)``); other dtypes and
+    containers (int64 / narrow ints / lists for id-like columns, float64 / lists for
+    coordinates); one array object given for two columns that hold the same values; read-only
+    views (``frozen_ok`` call sites only: the harness itself never writes into those trees).
+    Every other tree is first queried read-only (``warm``), every third one first sees operations
+    that fail or are abandoned (``abuse``)."""
     import os
 
     from swcgeom.core import Tree
@@ -328,14 +404,48 @@ def build(spec: dict, *, with_tag: bool = True, source: str = "", comments=None,
     kw = {k: np.array(v, copy=True) for k, v in spec.items() if with_tag or k != "tag"}
     plain = plain or bool(os.environ.get("RV_PLAIN_BUILD"))
     h = _spec_hash(spec)
-    if not plain and h % 4 == 1 and n >= 2 and all(
-            k in kw and kw[k].dtype == np.float32 for k in "xyzr"):
+    if plain:
+        return Tree(n, source=source, comments=comments, **kw)
+    layout = h % 4
+    std = all(k in kw and kw[k].dtype == np.float32 for k in "xyzr")
+    if layout == 1 and n >= 2 and std:
         block = np.stack([kw[k] for k in "xyzr"], axis=1)  # C order: columns are strided
         for j, k in enumerate("xyzr"):
             kw[k] = block[:, j]
         WARM_STATS["strided_layout"] += 1
+    elif layout == 2 and n >= 1 and std and n <= 5000:
+        for j, k in enumerate(("pid", "type")):
+            if k in kw and kw[k].dtype == np.int32:
+                kw[k] = _narrow_int(kw[k], (h >> (9 + 3 * j)) % 7)
+        kw["id"] = _narrow_int(np.arange(n, dtype=np.int32), (h >> 15) % 7)
+        for j, k in enumerate("xyzr"):  # float32 values are exact in float64 and as Python floats
+            m = (h >> (18 + 2 * j)) % 3
+            if m == 1:
+                kw[k] = kw[k].astype(np.float64)
+            elif m == 2:
+                kw[k] = [float(v) for v in kw[k]]
+        WARM_STATS["other_input_dtypes"] += 1
+    if std and n >= 2 and layout != 2:
+        # columns with equal content handed over as one and the same array object
+        names = [k for k in kw if isinstance(kw[k], np.ndarray) and k not in ("pid", "tag")]
+        done = False
+        for i, a in enumerate(names):
+            for b in names[i + 1:]:
+                if (not done and kw[a] is not kw[b] and kw[a].dtype == kw[b].dtype
+                        and kw[a].strides == kw[b].strides and np.array_equal(kw[a], kw[b])):
+                    kw[b] = kw[a]
+                    done = True
+        if done:
+            WARM_STATS["one_array_as_two_columns"] += 1
+    if frozen_ok and (h >> 24) % 5 == 0:
+        for k, v in kw.items():
+            if isinstance(v, np.ndarray):
+                v.setflags(write=False)
+        WARM_STATS["readonly_columns"] += 1
     tree = Tree(n, source=source, comments=comments, **kw)
-    if not plain and (h >> 2) % 2:
+    if (h >> 5) % 3 == 0:
+        abuse(tree, h >> 6)
+    if (h >> 2) % 2:
         warm(tree, h >> 3)
     return tree
 
